@@ -1,6 +1,7 @@
 import FrappyModel.Client.Match
 import FrappyModel.Client.Timed
 import FrappyModel.Client.Shutdown
+import FrappyModel.Client.Conn
 /-
 C11 — Client: every caller gets its own reply or an error, under all interleavings; clean shutdown.
 
@@ -48,6 +49,22 @@ def ReplyFresh (s : St α) : Prop := ∀ p ∈ s.delivered, p.1 ∈ s.wireOut
 def NoParking (tbl : List (α × α)) (s : St α) : Prop :=
   ∀ e ∈ s.pending, s.closing = true ∨ hasKey s.active (reqKey tbl e.req) = true
 
+/-- where the client still knows a request: queued, taken by the tx thread, parked, filed, popped by the rx thread
+(about to be delivered / about to be requeued), taken by a `disconnect` — or its caller is done with it: answered,
+released, timed out -/
+def whereabouts (s : St α) : List Nat :=
+  s.txq.map (·.id) ++ (s.txHold.toList.map (·.id) ++ (s.pending.map (·.id) ++ (s.active.map (·.2.id)
+    ++ (s.rxSet.toList.map (·.1.id) ++ (s.rxHold.map (·.id) ++ (s.relHold.map (·.id)
+    ++ (s.delivered.map (·.1.id) ++ (s.released ++ s.timedOut))))))))
+
+/-- no request is lost: every request a caller has queued is still somewhere in the client's machinery, or its caller
+has got a reply, was released, or ran into its time-out.  (A caller whose request is in none of these places can only
+end by time-out, whatever the peer answers.) -/
+def NoLostRequest (s : St α) : Prop := ∀ i, i < s.nextId → i ∈ whereabouts s
+
+instance (s : St α) : Decidable (NoLostRequest s) := by
+  unfold NoLostRequest; exact Nat.decidableBallLT _ _
+
 instance (tbl : List (α × α)) (s : St α) : Decidable (ReplyMatches tbl s) := by unfold ReplyMatches; exact inferInstance
 instance (tbl : List (α × α)) (s : St α) : Decidable (ReplyMatchesKnown tbl s) := by
   unfold ReplyMatchesKnown; exact inferInstance
@@ -76,6 +93,16 @@ theorem noDoubleDeliveryB_iff (s : St α) : noDoubleDeliveryB s = true ↔ NoDou
 theorem noParkingB_iff (tbl : List (α × α)) (s : St α) : noParkingB tbl s = true ↔ NoParking tbl s := by
   simp [noParkingB]
 
+def noLostB (s : St α) : Bool := decide (NoLostRequest s)
+
+omit [DecidableEq α] in
+theorem noLostB_iff (s : St α) : noLostB s = true ↔ NoLostRequest s := by simp [noLostB]
+
+/-- index of the first state of an observed run in which a request is lost -/
+def firstLost : List (St α) → Nat → Option Nat
+  | [], _ => none
+  | s :: rest, i => if noLostB s then firstLost rest (i + 1) else some i
+
 /-- index of the first state of an observed run in which a request is parked with its key free -/
 def firstParked (tbl : List (α × α)) : List (St α) → Nat → Option Nat
   | [], _ => none
@@ -91,6 +118,8 @@ inductive Outcome where
   | connError             -- ConnectionError / CommunicationFailedError
   | timeout
   | other                 -- any other exception, or did not return
+  | laterConn             -- its request was queued only after the client had connected anew (the matching model and
+                          -- its monitors are about one connection; such a caller is judged by the time bound only)
   deriving DecidableEq, Repr
 
 structure CallerObs where
@@ -103,7 +132,9 @@ structure CallerObs where
   deriving Repr
 
 /-- verdict on one caller; `closedAt` = label indices at which some `disconnect()` call had completed,
-`waitMs` = the longest a caller may wait (put time-out + reply time-out) -/
+`waitMs` = the longest a caller may wait (put time-out + reply time-out), `putClosing` = the connection was already
+being shut down (or was shut down) when the caller queued its request: such a caller must be released like one that
+was waiting when the shutdown began, it must not sit out its time-out -/
 inductive Verdict where
   | ok
   | wrongReply        -- returned a line that was not handed to its entry / does not answer its request
@@ -114,7 +145,7 @@ inductive Verdict where
   deriving DecidableEq, Repr
 
 def judgeCaller (tbl : List (α × α)) (final : St α) (closedAt : List Nat) (everClosing : Bool) (waitMs : Nat)
-    (c : CallerObs) : Verdict :=
+    (putClosing : Bool) (c : CallerObs) : Verdict :=
   if c.tEnd > c.tPut + waitMs then .late else
   match c.out with
   | .reply q | .secopError q =>
@@ -122,8 +153,9 @@ def judgeCaller (tbl : List (α × α)) (final : St α) (closedAt : List Nat) (e
     | some p => if p.2.seq = q ∧ AnswersOwn tbl p.1 p.2 then .ok else .wrongReply
     | none => .wrongReply
   | .connError => if everClosing then .ok else .spuriousConnError
-  | .timeout => if closedAt.any (fun k => c.putAt < k ∧ k ≤ c.endAt) then .notReleased else .ok
+  | .timeout => if putClosing || closedAt.any (fun k => c.putAt < k ∧ k ≤ c.endAt) then .notReleased else .ok
   | .other => .raised
+  | .laterConn => .ok
 
 end
 
@@ -182,5 +214,131 @@ instance (r : RunEnd) : Decidable (ShutdownClean r) := by unfold ShutdownClean; 
 def shutdownCleanB (r : RunEnd) : Bool := decide (ShutdownClean r)
 
 theorem shutdownCleanB_iff (r : RunEnd) : shutdownCleanB r = true ↔ ShutdownClean r := by simp [shutdownCleanB]
+
+/-- what the harness saw some (virtual) time after a `disconnect()` called by the user had returned, before anything
+else was asked of the client: whether a request of some caller was still in progress or was started after that
+`disconnect()` began (a request connects anew: "a connect by the user revokes an earlier shutdown request"), the worker
+threads (rx, tx, reconnect) still running, whether the client holds a connection -/
+structure AfterShutdown where
+  userActivity : Bool
+  alive : List String
+  connected : Bool
+  deriving Repr
+
+/-- the shutdown is final: unless the user asks for the connection again, the client stays shut down — no worker
+thread running, not connected -/
+def ShutdownFinal (a : AfterShutdown) : Prop := a.userActivity = false → a.alive = [] ∧ a.connected = false
+
+instance (a : AfterShutdown) : Decidable (ShutdownFinal a) := by unfold ShutdownFinal; exact inferInstance
+
+def shutdownFinalB (a : AfterShutdown) : Bool := decide (ShutdownFinal a)
+
+theorem shutdownFinalB_iff (a : AfterShutdown) : shutdownFinalB a = true ↔ ShutdownFinal a := by simp [shutdownFinalB]
+
+/-! ### the connection object: what the client relies on
+
+The shutdown clauses of the statement ("completes without raising", "every waiting caller is released promptly") rest on
+the connection object behaving as follows, whatever the peer did to the connection (orderly close, reset, close with
+unread data) and in whatever order the client's threads call it. -/
+section
+open Frappy.Client.Conn
+
+/-- what a trace prefix tells: lines the peer sent, lines `readline` returned, whether the peer ended the connection,
+whether `shutdown()` / `disconnect()` were called, whether `readline` has raised `ConnectionClosed` -/
+structure View where
+  sent : Nat := 0
+  got : Nat := 0
+  peerEnded : Bool := false
+  shut : Bool := false
+  gone : Bool := false
+  sawClosed : Bool := false
+  deriving DecidableEq, Repr
+
+def View.see (v : View) : Ev → View
+  | .peerSend => { v with sent := v.sent + 1 }
+  | .peerFin => { v with peerEnded := true }
+  | .peerRst => { v with peerEnded := true }
+  | .call .readline (.line _) => { v with got := v.got + 1 }
+  | .call .readline .closed => { v with sawClosed := true }
+  | .call .shutdown _ => { v with shut := true }
+  | .call .disconnect _ => { v with gone := true }
+  | _ => v
+
+/-- the connection has ended and nothing is left to read -/
+def View.dead (v : View) : Bool := (v.shut || v.peerEnded) && (v.got == v.sent || v.sawClosed)
+
+/-- one call, made in the situation `v`, behaves as the client needs it:
+* `shutdown()` and `disconnect()` return normally — always;
+* `readline()` on a connection that was not disconnected raises nothing but `ConnectionClosed`, and that only when
+  the connection has ended (peer closed / reset, or shut down locally); it returns only the next unread line the peer
+  sent; on a dead connection it raises `ConnectionClosed` (it does not go on returning `None`: the rx thread would
+  never notice);
+* `send()` after `shutdown()` does not return normally (the tx thread notices). -/
+def CallOk (v : View) : Op → Out → Prop
+  | .shutdown, r => r = .ok
+  | .disconnect, r => r = .ok
+  | .readline, r =>
+    v.gone = true ∨
+      (match r with
+       | .line n => n = v.got ∧ v.got < v.sent ∧ v.sawClosed = false
+       | .nothing => v.dead = false
+       | .closed => v.shut = true ∨ v.peerEnded = true
+       | _ => False)
+  | .send, r => v.gone = true ∨ v.shut = false ∨ r ≠ .ok
+
+instance (v : View) (o : Op) (r : Out) : Decidable (CallOk v o r) := by
+  unfold CallOk
+  cases o <;> try exact inferInstance
+  · cases r <;> exact inferInstance
+
+/-- every call of the trace is `CallOk` in the situation in which it was made -/
+def ConnContractFrom (v : View) : List Ev → Prop
+  | [] => True
+  | e :: es => (match e with | .call o r => CallOk v o r | _ => True) ∧ ConnContractFrom (v.see e) es
+
+def ConnContract (tr : List Ev) : Prop := ConnContractFrom {} tr
+
+/-- monitor: index of the first call of the trace that is not `CallOk` -/
+def connFirstBad (v : View) : List Ev → Nat → Option Nat
+  | [], _ => none
+  | e :: es, i =>
+    if (match e with | .call o r => decide (CallOk v o r) | _ => true) then connFirstBad (v.see e) es (i + 1)
+    else some i
+
+theorem connFirstBad_iff (v : View) (tr : List Ev) (i : Nat) :
+    connFirstBad v tr i = none ↔ ConnContractFrom v tr := by
+  induction tr generalizing v i with
+  | nil => simp [connFirstBad, ConnContractFrom]
+  | cons e es ih =>
+    simp only [connFirstBad, ConnContractFrom]
+    cases e with
+    | call o r =>
+      by_cases h : CallOk v o r
+      · simp [h, ih]
+      · simp [h]
+    | peerSend => simp [ih]
+    | peerFin => simp [ih]
+    | peerRst => simp [ih]
+
+end
+
+/-! ### the client on a real connection (loopback TCP, real threads)
+
+One caller has a request pending when the connection is lost (orderly close / reset / close with unread data) or shut
+down by the user; `elapsedMs` is the real time between the loss and the return of `request()`. -/
+structure Release where
+  out : Outcome
+  elapsedMs : Nat
+  deriving Repr
+
+/-- every waiting caller is released promptly with a connection error -/
+def ReleasedPromptly (boundMs : Nat) (r : Release) : Prop := r.out = .connError ∧ r.elapsedMs ≤ boundMs
+
+instance (b : Nat) (r : Release) : Decidable (ReleasedPromptly b r) := by unfold ReleasedPromptly; exact inferInstance
+
+def releasedPromptlyB (b : Nat) (r : Release) : Bool := decide (ReleasedPromptly b r)
+
+theorem releasedPromptlyB_iff (b : Nat) (r : Release) : releasedPromptlyB b r = true ↔ ReleasedPromptly b r := by
+  simp [releasedPromptlyB]
 
 end Frappy.Spec.C11
